@@ -55,7 +55,8 @@ CHECKS = {
         "medium a ray that reaches the receiver line has exactly the straight-line time to its end point, and sqrt(X^2+z^2) is 1-Lipschitz in z (tolerance bound). "
         "Tie: _tracerays (trace_layers on/off) co-executed with the binary64 instance (sqrt form, 2^-30 relative), the statement re-evaluated on the returned ray "
         "coordinates, forward()/solved_angles on homogeneous media on the installed NumPy with receiver arrays listed top-down, bottom-up, shuffled or holding one "
-        "receiver (every forward() call under a watchdog: termination of the angle search is observed, not proved).",
+        "receiver (every forward() call under a watchdog: termination of the angle search is observed, not proved), forward() on layered media re-traced at "
+        "the solved angles.",
    note="Trusted: Coq kernel, stdlib real axioms; harness; sin(arcsin x)=x and cos(arcsin x)=sqrt(1-x^2) connect the code's angle form to the model's; the random "
         "angle refinement of _search_angles is exercised, not modelled.",
    technique="Coq proof (induction over layers, real analysis) + tolerance co-execution", ref="5/C18"),
